@@ -86,15 +86,17 @@ theorem assignmentOf_sub_log {log : List (Str × Str × Int)} {m : Str} :
       have := length_le_flatMap (f := fun (o : Str × Dict Str (List Int)) => (pairsOf o.2).map (fun y => (o.1, y))) hmem
       simpa [triplesOf] using this
 
-/-- Range hypotheses on the leader's input: topic names ASCII and at most 32767 characters,
-    partition ids int32 (per entry of `topic_partitions`). -/
-def TpInRange (tp : Dict Str (List Int)) : Prop :=
-  ∀ e ∈ tp, e.1.all (· < 128) = true ∧ e.1.length ≤ 32767 ∧ ∀ p ∈ e.2, -2147483648 ≤ p ∧ p < 2147483648
+/-- Range hypotheses on the leader's input, for the subscribed topics only: topic names ASCII and at
+    most 32767 characters, partition ids int32 (per entry of `topic_partitions`). -/
+def TpInRange (topics : List Str) (tp : Dict Str (List Int)) : Prop :=
+  ∀ e ∈ tp, e.1 ∈ topics →
+    e.1.all (· < 128) = true ∧ e.1.length ≤ 32767 ∧ ∀ p ∈ e.2, -2147483648 ≤ p ∧ p < 2147483648
 
-instance (tp : Dict Str (List Int)) : Decidable (TpInRange tp) := by unfold TpInRange; infer_instance
+instance (topics : List Str) (tp : Dict Str (List Int)) : Decidable (TpInRange topics tp) := by
+  unfold TpInRange; infer_instance
 
 theorem encodeEach_total {md : Dict Str (List Str)} {tp : Dict Str (List Int)} {asg : Asg}
-    (h : roundRobin md tp = .ok asg) (hr : TpInRange tp)
+    (h : roundRobin md tp = .ok asg) (hr : TpInRange (allTopics md) tp)
     (hcount : (atpOf tp (allTopics md)).length < 2147483648) (ms : List Member) :
     ∃ encs, encodeEach asg ms = .ok encs := by
   obtain ⟨atp, log, hatp, hlog, rfl⟩ := roundRobin_ok h
@@ -114,23 +116,23 @@ theorem encodeEach_total {md : Dict Str (List Str)} {tp : Dict Str (List Int)} {
     refine encodeMemberAssignment_ok ?_ ?_
     · have := length_le_pairsOf hne; omega
     · intro e he
-      have hps : ∀ p ∈ e.2, ∃ ps', (e.1, ps') ∈ tp ∧ p ∈ ps' := by
+      have hps : ∀ p ∈ e.2, ∃ ps', (e.1, ps') ∈ tp ∧ e.1 ∈ allTopics md ∧ p ∈ ps' := by
         intro p hp
         have h1 : (e.1, p) ∈ log.map (·.2) := List.mem_map.mpr ⟨(m, e.1, p), hsub e he p hp, rfl⟩
         rw [(assignLoop_ok_spec hlog).1] at h1
-        obtain ⟨-, ps', hd, hp'⟩ := mem_allTopicPartitions hatp ((mem_sortBy tpLe).mp h1)
-        exact ⟨ps', mem_of_dget hd, hp'⟩
+        obtain ⟨ht, ps', hd, hp'⟩ := mem_allTopicPartitions hatp ((mem_sortBy tpLe).mp h1)
+        exact ⟨ps', mem_of_dget hd, ht, hp'⟩
       obtain ⟨p0, hp0⟩ := List.exists_mem_of_ne_nil _ (hne e he)
-      obtain ⟨ps0, hmem0, -⟩ := hps p0 hp0
-      obtain ⟨ha, hl, -⟩ := hr _ hmem0
+      obtain ⟨ps0, hmem0, htop0, -⟩ := hps p0 hp0
+      obtain ⟨ha, hl, -⟩ := hr _ hmem0 htop0
       refine ⟨ha, hl, ?_, ?_⟩
       · have h2 : e.2.length ≤ (pairsOf (assignmentOf (nest log) m)).length := by
           have := length_le_flatMap (f := fun (x : Str × List Int) => x.2.map (fun p => (x.1, p))) he
           simpa [pairsOf] using this
         omega
       · intro p hp
-        obtain ⟨ps', hmem, hp'⟩ := hps p hp
-        exact (hr _ hmem).2.2 p hp'
+        obtain ⟨ps', hmem, htop, hp'⟩ := hps p hp
+        exact (hr _ hmem htop).2.2 p hp'
   induction ms with
   | nil => exact ⟨[], rfl⟩
   | cons m ms ih =>
